@@ -1488,7 +1488,7 @@ func TestVerif_C14(t *testing.T) {
 
 	names := vfC14Names(t)
 	r.Sample(map[string]any{"names": names, "hashes": fmt.Sprintf("%08x", vfC14NewCfg(43, names, nil, 0).hashes)})
-	ids := []uint64{0x0007060504030201, 0x00F7E6D5C4B3A291}
+	ids := []uint64{0x0007060504030201, 0} // (0: a heap id like any other; a search must not take it for "not found")
 	maxPending := 2
 	if r.Thorough() {
 		maxPending = 4
